@@ -55,8 +55,12 @@ func (d *dialogue) raw(line string, spec ...string) string {
 	return rep
 }
 
+// capNegFlag: what the application put into Config.EnableCapabilityNegotiation. With a SASL mechanism configured the
+// flag may be left false: Client() switches negotiation on itself (its documentation says so), and the dialogue is the same.
+var capNegFlag = true
+
 func capDialogue(wanted, adv []string, saslKind int, reply int, outcome string, prelude ...[]string) Case {
-	p := rigParams{nick: "me", ident: "id", name: "Real", version: "v", quit: "q", split: 450, capNeg: true, caps: wanted, sasl: "none", newNick: "default"}
+	p := rigParams{nick: "me", ident: "id", name: "Real", version: "v", quit: "q", split: 450, capNeg: capNegFlag || saslKind == 0, caps: wanted, sasl: "none", newNick: "default"}
 	switch saslKind {
 	case 1:
 		p.sasl, p.saslClient = plainSasl("", "user", "secret")
@@ -284,6 +288,16 @@ func c19(c *Ctx) {
 			}
 		}
 	}
+	// SASL configured, EnableCapabilityNegotiation left at its default (false)
+	capNegFlag = false
+	for _, a := range [][]string{{"sasl"}, {"a", "sasl", "t"}, {"a"}} {
+		for sk := 1; sk <= 4; sk++ {
+			for reply := 0; reply <= 3; reply++ {
+				cases = append(cases, capDialogue([]string{"a"}, a, sk, reply, c.R.Pick("903", "904", "908")))
+			}
+		}
+	}
+	capNegFlag = true
 	// the same client negotiating more than once: a multi-line LS whose lines advertise different sets
 	all := subsets([]string{"a", "t", "d", "sasl", "userhost-in-names"})
 	for _, w := range subsets([]string{"a", "c", "t", "userhost-in-names"}) {
